@@ -19,7 +19,7 @@ def run_contract(path, func, timeout_s, expect="confirmed", pid="", replay_prelu
     """Returns a result dict in the runner's format for one contract."""
     t0 = time.time()
     line = _line_of(path, func)
-    env = dict(os.environ, PYTHONPATH=f"{ROOT}:/repo")
+    env = dict(os.environ, PYTHONPATH=f"{ROOT}:{os.environ.get('VERIF_REPO', '/repo')}")
     cmd = [sys.executable, "-m", "crosshair", "check", "--report_all", "--per_condition_timeout", str(timeout_s), f"{path}:{line}"]
     try:
         p = subprocess.run(cmd, capture_output=True, text=True, env=env, timeout=timeout_s * 2 + 120)
@@ -48,7 +48,7 @@ def run_contract(path, func, timeout_s, expect="confirmed", pid="", replay_prelu
         o["sat"] = 1
         call = m.group(1)
         from engine.run import run_replay
-        script = ("import sys, warnings\nwarnings.filterwarnings('ignore')\nsys.path.insert(0, '/repo')\n"
+        script = ("import sys, warnings\nwarnings.filterwarnings('ignore')\nsys.path.insert(0, __import__('os').environ.get('VERIF_REPO', '/repo'))\n"
                   f"exec(open({path!r}).read())\n"
                   f"r = {call}\n"
                   f"if not r:\n    print('REPRODUCED: configuration not restored by', {call!r}); sys.exit(1)\nprint('NOT-REPRODUCED'); sys.exit(0)\n")
